@@ -216,15 +216,16 @@ def obligations(tier):
          [(1, 1), (1, 3), (2, 1), (2, 2), (2, 3), (2, 5), (3, 2), (3, 3), (3, 4), (3, 5), (4, 2), (4, 5), (2, [2, 2]), (3, [2, 2]), (3, [1, 2])]
     for n, k in tc:
         obs.append(TiledChoice(n=n, size=k))
-    for n, k in ([(3, 5), (3, 3)] if tier == "quick" else [(3, 5), (4, 6), (3, 2), (3, 3), (4, 7)]):
+    for n, k in ([(3, 5), (3, 3)] if tier == "quick" else [(3, 5), (4, 6), (3, 2), (3, 3)]):
         obs.append(TiledChoice(n=n, size=k, weighted=True))
     ax = [((2, 2), 0), ((2, 2), 1), ((2, 3), [0]), ((3, 2), 1), ((2, 2, 2), [1, 0])] if tier == "quick" else \
-         [((2, 3, 2), [1, 0]), ((2, 2, 2), [2, 0]), ((2, 2, 2), [1, 0]), ((2, 2), 0), ((2, 2), 1), ((2, 3), 0), ((2, 3), 1), ((3, 2), 0), ((3, 2), 1), ((2, 2), [0, 1]), ((2, 2, 2), 0), ((2, 2, 2), [0, 1]), ((2, 2, 2), 1), ((2, 3, 2), 2)]
+         [((2, 3, 2), [1, 0]), ((2, 2, 2), [2, 0]), ((2, 2, 2), [1, 0]), ((2, 2), 0), ((2, 2), 1), ((2, 3), 0), ((2, 3), 1), ((3, 2), 0), ((3, 2), 1), ((2, 2, 2), 0), ((2, 2, 2), [0, 1]), ((2, 2, 2), 1), ((2, 3, 2), 2)]
     for shp, axis in ax:
         obs.append(AxisShuffle(shape=list(shp), axis=axis))
     oc = [((2, 2), 2), ((2, 2), 3)] if tier == "quick" else [((2, 2), 2), ((2, 2), 3), ((2, 2), 4), ((3, 2), 3), ((2, 3), 3), ((1, 2), 2)]
     for shp, nid in oc:
-        h = OutcrossShuffle(shape=list(shp), nid=nid)
+        # tables with six cells: only the first shuffle symbolic (every table is a start table, see STUBS)
+        h = OutcrossShuffle(shape=list(shp), nid=nid, **(dict(inductive=True) if shp[0] * shp[1] >= 6 else {}))
         h.weight = 50
         obs.append(h)
     if tier == "quick":
